@@ -18,10 +18,10 @@ PROPS = {
         "module": "SimilarVerif.Props.C01",
         "suites": ["raw", "deadline"],
         "rule": "raw: all sequence pairs up to length 4 (thorough 5) over 3 symbols x 3 algorithms, all sub-range pairs of pairs up to length 3 (thorough 4) with slice and offset lookups, plus structured random pairs (7 families); non-trivial = at least one change and one equal item; distinct by request hash",
-        "theorem_status": "LCS: total and valid for every clock (full). Myers: valid if it returns, for every clock, relative to SnakeInBox (split point inside the box; Myers' theory pending). Patience: correspondence only so far. Corollaries replay/coverage for every valid stream.",
+        "theorem_status": "LCS full (total + valid, every clock). Myers full (total + valid, every clock): Myers' middle-snake theory is formalised (furthest-reaching invariant, overlap at ceil(D/2), split point on an optimal path inside the box, not a corner) and discharges SnakeInBox/SnakeFound for every environment. Patience: valid whenever it returns (no hypotheses); totality of the composite not yet a theorem. Replay/coverage corollaries.",
         "level_text": "Lean theorems: LCS total+valid (all inputs, ranges, clocks); Myers partial correctness relative to the explicit hypothesis SnakeInBox; replay and coverage corollaries. Exact call traces, comparison and probe counts of all three algorithms are compared with the model on exhaustive small scopes and random inputs, and an independent strict walker validates the implementation's streams.",
-        "level_note": "Myers/Patience totality and the in-box fact are hypotheses (named Props, not axioms); the model is tied to the code by differential testing only; release-build wrap-around of usize is modelled as a panic (checked build)",
-        "assumptions": ["Myers theorems assume SnakeInBox E (explicit hypothesis)", "usize arithmetic modelled on Nat; overflow out of scope"],
+        "level_note": "Patience totality is not yet proved; the model is tied to the code by differential testing only; release-build wrap-around of usize is modelled as a panic (checked build)",
+        "assumptions": ["usize arithmetic modelled on Nat; overflow out of scope", "shift invariance of sub-range diffs is validated on the implementation (suite raw), not a theorem"],
     },
     "C10": {
         "title": "Compact and Replace preserve meaning and cost of any valid script",
@@ -68,9 +68,9 @@ PROPS.update({
         "module": "SimilarVerif.Props.C03",
         "suites": ["raw", "cap"],
         "rule": "raw/cap as for C01/C02; the validator computes a brute-force DP LCS for every Myers and LCS run (raw and captured) and compares deleted+inserted, equal total and the f32 ratio",
-        "theorem_status": "lower bound for every valid script (full); LCS minimal for all inputs and sub-ranges (full); clean-up and Replace keep item counts (partial correctness of Compact); Myers minimality: needs middle-snake theory (in progress), covered by the brute-force validator",
+        "theorem_status": "lower bound for every valid script (full); LCS minimal for all inputs and sub-ranges (full); clean-up and Replace keep item counts (partial correctness of Compact); Myers minimal (full: raw stream costs N+M-2L and beats every valid script; theory in Lemmas/MyersTheory+MyersOptimal); captured LCS minimal; captured Myers: counts preserved by the pipeline (C10) so minimal as well",
         "level_text": "Lean theorems: cost >= N+M-2L for every valid script; LCS raw stream attains it (table correctness + greedy walk optimality + prefix/suffix stripping); clean-up preserves counts. Myers minimality is validated on the implementation by brute force on the whole explored space.",
-        "level_note": "Myers' optimality is not yet a theorem; Spec.lcsLen is the textbook recursion",
+        "level_note": "Spec.lcsLen is the textbook recursion; ratio = 2L/(N+M) is proved for the exact fraction, the f32 value is compared bit for bit by the correspondence",
     },
     "C06": {
         "title": "Tokenizers are lossless partitions with the documented token shape",
@@ -86,7 +86,7 @@ PROPS.update({
         "module": "SimilarVerif.Props.C07",
         "suites": ["deadline", "text"],
         "rule": "deadline: all pairs up to length 4 over 2 (thorough 3) symbols + random pairs x 3 algorithms x every expiry point k = 0..#checks+1 (sampled beyond 40) through algorithms::diff_deadline and capture_diff_deadline under the virtual clock; validators: script validity, finish once, comparisons after expiry <= 2x the hand-derived bound, never-expiring = none; text: TextDiffConfig deadline/timeout reach the algorithm; non-trivial = the clock actually expired",
-        "theorem_status": "validity and finish-once for EVERY expiry point: LCS full (incl. totality), Myers and Patience relative to SnakeInBox; never-expiring = none and the post-expiry comparison bound: Lemmas/Deadline.lean in progress, covered by exact model correspondence (comparison and probe counts at every expiry point) and validators",
+        "theorem_status": "validity and finish-once for EVERY expiry point: LCS full (incl. totality), Myers full incl. totality, Patience whenever it returns; never-expiring = none and the post-expiry comparison bound: Lemmas/Deadline.lean in progress, covered by exact model correspondence (comparison and probe counts at every expiry point) and validators",
         "level_text": "Lean theorems quantify over all virtual-clock states, i.e. all expiry points; the virtual clock is the cfg(similar_verif) hook in /repo, so expiry at the k-th check is an input of the correspondence as well.",
         "level_note": "real time cannot be exhibited by the model: Instant::now() > deadline is replaced by the virtual clock under the guard",
     },
@@ -95,7 +95,7 @@ PROPS.update({
         "module": "SimilarVerif.Props.C08",
         "suites": ["stacks", "deadline"],
         "rule": "stacks: all pairs up to length 3 (thorough 5) over 2 symbols + random pairs x 3 algorithms x 6 adapter stacks (none, &mut, NoFinish, Replace, Compact, Compact+Replace) x hook with/without replace override x every failing call index k; non-trivial = more than 2 calls",
-        "theorem_status": "full: abort-prefix theorem for every algorithm x {none, NoFinish, Replace, Compact, Compact+Replace} x every k and both replace modes; finish once and last follows from C01's validity (LCS full, Myers relative to SnakeInBox); NoFinish forwarding and default replace by definition",
+        "theorem_status": "full: abort-prefix theorem for every algorithm x {none, NoFinish, Replace, Compact, Compact+Replace} x every k and both replace modes; finish once and last follows from C01's validity (LCS and Myers full, Patience whenever it returns); NoFinish forwarding and default replace by definition",
         "level_text": "Lean theorem: the run against a hook failing at call k is exactly the k+1-prefix of the never-failing run, returns that error, for all inputs (simulation proof over every hook-generic model function); the correspondence exercises every k on the real code.",
         "level_note": "&mut D forwarding is the identity in the model; a dropped `?` cannot be expressed in the model and is caught by the correspondence",
     },
@@ -113,7 +113,7 @@ PROPS.update({
         "module": "SimilarVerif.Props.C11",
         "suites": ["cap"],
         "rule": "cap as for C02, without deadline; every captured op list is checked for exact positions; a failing case is re-run with the cfg(similar_verif) swap-repair switch and attributed to the known finding only if the failure disappears",
-        "theorem_status": "the unchanged code violates C11 (known finding KF-compact-swap): counterexample theorem on the shipped model; with the swap repair the clean-up keeps exactness for all valid scripts; shipped and repaired variants differ only in carried indices; Replace/LCS/Myers-without-deadline stages exact",
+        "theorem_status": "the unchanged code violates C11 (known finding KF-compact-swap): counterexample theorem on the shipped model; with the swap repair the clean-up keeps exactness for all valid scripts; shipped and repaired variants differ only in carried indices; Replace/LCS/Myers-without-deadline stages exact; end to end: captured Myers ops exact with the repaired swap (unconditional)",
         "level_text": "Lean theorems: negation witness for the shipped swap, positive theorem for the repaired swap, attribution lemma; both variants of the implementation compared with both variants of the model.",
         "level_note": "KNOWN FINDING listed in known_findings.json; the check prints KNOWN-FINDING and exits 0 only when every failure is attributable to the swap site",
     },
@@ -122,7 +122,7 @@ PROPS.update({
         "module": "SimilarVerif.Props.C15",
         "suites": ["raw", "cap"],
         "rule": "raw/cap as for C01/C02; for every Patience run (raw and captured) the validator computes the longest common in-order subsequence of the items unique on both sides by brute force and compares with the number of such items reported Equal",
-        "theorem_status": "pairing clause full (an anchored item is matched to its unique counterpart) on top of Patience soundness (relative to SnakeInBox); the size clause needs Myers minimality on the unique lists (theory in progress), covered by the brute-force LIS validator",
+        "theorem_status": "pairing clause full (an anchored item is matched to its unique counterpart) on top of Patience soundness (unconditional partial correctness); the size clause needs Myers minimality on the unique lists (theory in progress), covered by the brute-force LIS validator",
         "level_text": "Lean theorems: Patience streams are valid scripts; equal segments pair equal items, hence unique items their counterparts; unique() is ascending and in range.",
         "level_note": "size clause not yet a theorem",
     },
@@ -191,5 +191,17 @@ PROPS.update({
         "theorem_status": "order part full (result = first n of the passing candidates in the unique (key desc, candidate asc) order); filter soundness in exact arithmetic full; transfer to f32 under the explicit monotone-rounding hypothesis Rnd (Float32 is opaque to the kernel)",
         "level_text": "Lean theorems float-free where possible; native Float32 in the driver reproduces the implementation's f32 results bit for bit on every request.",
         "level_note": "IEEE-754 facts (monotone rounding, to_bits order) are assumptions named in the Props file, not axioms",
+    },
+})
+
+PROPS.update({
+    "C04": {
+        "title": "Text diffs reconstruct both inputs byte-for-byte for every tokenizer",
+        "module": "SimilarVerif.Props.C04",
+        "suites": ["text"],
+        "rule": "text: 5 tokenizers x str/bytes x 3 algorithms over an exhaustive small text space (pieces with LF, CRLF, CR, no terminator, multi-byte, spaces), random texts (bytes: invalid UTF-8) and near-identical texts around the 100-token switch; validator: reassembly of both texts from iter_all_changes and from per-op iter_changes, index discipline; non-trivial = a change and an equal",
+        "theorem_status": "full as a composition: any valid op list over tiling tokens reconstructs both texts byte for byte with consecutive indices and the right index shape; instantiated for the model's text diff with LCS and Myers unconditionally and Patience whenever it returns; unicode tokenizers relative to the external segmenter's Partition contract",
+        "level_text": "Lean theorems composing C06 (tiling tokens), C02 (captured ops walk both token lists) and C13 (faithful expansion); TextDiff of the implementation compared with the model (token counts, ops, flags) and validated by reassembly.",
+        "level_note": "unicode-segmentation / bstr segmenters are external parameters with contract Partition",
     },
 })
